@@ -32,6 +32,8 @@ struct Pump {
     written: Vec<u8>,
     /// bytes of the sender's line still unread after the pump (the bridge must consume exactly the line)
     leftover: usize,
+    /// bytes BEYOND the line that were gone after the pump (more lines were waiting and the bridge read into them)
+    over_read: usize,
 }
 
 struct Rig {
@@ -72,8 +74,11 @@ fn pump(odk: &Rc<RefCell<TheOdk>>, vbus: &VBus, c2o: &Rc<RefCell<VecDeque<u8>>>,
     let saw: Vec<RefMsg> = vb.log[log_before..].iter().map(|e| e.msg.clone()).collect();
     let replied = vb.log[log_before..].last().map(|e| e.reply.clone().unwrap_or(None));
     let written = odk_port.borrow().written[written_before..].to_vec();
-    let leftover = c2o.borrow().len();
-    pumps.borrow_mut().push(Pump { line, result, bus_saw: saw, bus_replied: replied, written, leftover });
+    let still_queued = c2o.borrow().len();
+    let should_remain = pending.len() - line_end;
+    let leftover = still_queued.saturating_sub(should_remain);
+    let over_read = should_remain.saturating_sub(still_queued);
+    pumps.borrow_mut().push(Pump { line, result, bus_saw: saw, bus_replied: replied, written, leftover, over_read });
 }
 
 fn build(addrs: &[u16], autos: &[bool]) -> Rig {
@@ -115,6 +120,10 @@ fn check_pumps(pumps: &[Pump], rep: &mut Report, ctx_desc: &str) {
                 ]),
             );
         };
+        if p.over_read > 0 {
+            fail(rep, "read_beyond_the_line", format!("{} byte(s) of the lines waiting BEHIND this one were consumed as well", p.over_read));
+            continue;
+        }
         if p.leftover > 0 && p.line.ends_with(b"\n") {
             fail(rep, "line_not_consumed_exactly", format!("{} byte(s) of the stream were left unread behind a {}-byte line (the bridge is out of step from here on)", p.leftover, p.line.len()));
             continue;
@@ -433,7 +442,7 @@ fn raw_injection(rep: &mut Report) {
     // every single-symbol substitution / insertion on one frame
     let base = refs::wire(&RefMsg::Query(3));
     for p in 0..base.len() {
-        for s in [b':', b'0', b'9', b'A', b'F', b'a', b'f', b'G', b'\r', b' ', 0x00, 0xFF] {
+        for s in [b':', b'0', b'9', b'A', b'F', b'a', b'f', b'G', b'\r', b' ', 0x00, 0xFF, b'+', b'-', 0x10, 0x19] {
             let mut l = base.clone();
             l[p] = s;
             if !l[..l.len() - 1].contains(&b'\n') && l.ends_with(b"\n") {
@@ -456,6 +465,8 @@ fn raw_injection(rep: &mut Report) {
     lines.push(b"\n".to_vec());
     lines.push(b"\r\n".to_vec());
     lines.push(b"garbage\r\n".to_vec());
+    lines.push(b":01000302FF00\r\n".to_vec()); // a hello with "00" where its checksum belongs
+    lines.push(b":0100030200\r\n".to_vec());   // ... and with no checksum at all
     lines.push([refs::enc(3, 2, &[0]), b"\n".to_vec()].concat()); // bare LF
     for l in &lines {
         rig.c2o.borrow_mut().extend(l.iter().copied());
@@ -465,8 +476,55 @@ fn raw_injection(rep: &mut Report) {
         rep.case(Some(fnv(l)));
     }
     rep.add("raw_lines_injected", lines.len() as u64);
+    // bursts: two or three lines are already waiting when the bridge is pumped — it takes them one at a time, a bad line
+    // costs exactly itself, and what follows is served as if it had arrived alone
+    let good = [refs::wire(&RefMsg::Hello(3)), refs::wire(&RefMsg::Query(0x80)), refs::wire(&RefMsg::Request(3, O_RECV_CFG)), refs::wire(&RefMsg::Goodbye(3)), refs::wire(&RefMsg::Data { offset: 0, data: vec![7; 16] })];
+    let bad = [b"garbage\r\n".to_vec(), b":0100030200\r\n".to_vec(), b"\r\n".to_vec(), [refs::enc(3, 2, &[0]), b"\n".to_vec()].concat(), b":01000302FF00\r\n".to_vec(), vec![b'A'; 700].into_iter().chain(b"\r\n".iter().copied()).collect()];
+    let mut bursts = 0u64;
+    for a in good.iter().chain(bad.iter()) {
+        for b in good.iter().chain(bad.iter()) {
+            for c in [None, Some(&good[1]), Some(&bad[0])] {
+                let mut q: Vec<u8> = a.clone();
+                q.extend_from_slice(b);
+                if let Some(c) = c {
+                    q.extend_from_slice(c);
+                }
+                rig.c2o.borrow_mut().extend(q.iter().copied());
+                for _ in 0..if c.is_some() { 3 } else { 2 } {
+                    pump(&rig.odk, &rig.vbus, &rig.c2o, &rig.odk_port, &rig.pumps);
+                    rig.o2c.borrow_mut().clear();
+                }
+                if !rig.c2o.borrow().is_empty() {
+                    rep.violation(MON_B, "burst_not_drained_line_by_line", &crate::util::hex(&q[..q.len().min(40)]), format!("{} byte(s) still waiting after as many pumps as lines were sent [{}]", rig.c2o.borrow().len(), show_bytes(&q[..q.len().min(60)])), J::Null);
+                    rig.c2o.borrow_mut().clear();
+                }
+                bursts += 1;
+            }
+        }
+    }
+    rep.add("bursts_of_lines_waiting_at_the_bridge", bursts);
     let pumps = rig.pumps.borrow().clone();
     check_pumps(&pumps, rep, "raw");
+    // a bridge that is created while traffic is already waiting in its port serves that traffic
+    {
+        let vbus: VBus = Rc::new(RefCell::new(RecBus::new(population(&[3], &[false]))));
+        let c2o = Rc::new(RefCell::new(VecDeque::new()));
+        let o2c = Rc::new(RefCell::new(VecDeque::new()));
+        c2o.borrow_mut().extend(refs::wire(&RefMsg::Hello(3)));
+        c2o.borrow_mut().extend(refs::wire(&RefMsg::Query(3)));
+        let st = doubles::shared(doubles::WEIRD_SETTINGS);
+        let port = InstrPort { st: st.clone(), wiring: Wiring::Link { rx: c2o.clone(), tx: o2c.clone(), on_line: None } };
+        let odk: Rc<RefCell<TheOdk>> = Rc::new(RefCell::new(Odk::try_new(port, SharedBus(vbus.clone())).expect("odk setup")));
+        let pumps = Rc::new(RefCell::new(vec![]));
+        pump(&odk, &vbus, &c2o, &st, &pumps);
+        pump(&odk, &vbus, &c2o, &st, &pumps);
+        let ps = pumps.borrow().clone();
+        check_pumps(&ps, rep, "preloaded");
+        if vbus.borrow().log.len() != 2 {
+            rep.violation(MON_B, "traffic_waiting_at_construction_lost", "preloaded", format!("two frames were waiting in the port when the bridge was created; the bus saw {} of them", vbus.borrow().log.len()), J::Null);
+        }
+        rep.count("bridges_created_with_traffic_waiting");
+    }
     let _ = &rig.serial;
 }
 
@@ -492,6 +550,24 @@ fn bridge_faults(rep: &mut Report) {
                 let ok = matches!(&r, Ok(Err(e)) if e.starts_with("Communication")) && vbus.borrow().log.is_empty() && st.borrow().written.is_empty();
                 if !ok {
                     rep.violation(MON_B, "bridge_read_fault_mishandled", &format!("{}@{}", req.show(), pos), format!("read failure ({:?}) at byte {} of [{}]: result {:?}, bus saw {} message(s), {} byte(s) written back", kind, pos, show_bytes(&line), r.as_ref().map_err(|p| p.msg.clone()), vbus.borrow().log.len(), st.borrow().written.len()), J::Null);
+                }
+            }
+        }
+        // (c) a port that takes only a few bytes per write call, and never fails: the whole reply still goes back
+        if replies {
+            for size in [1usize, 2, 4, 7] {
+                let vbus: VBus = Rc::new(RefCell::new(RecBus::new(population(&[3], &[false]))));
+                let st = doubles::shared(doubles::WEIRD_SETTINGS);
+                let port = InstrPort::scripted(st.clone(), FragReader::plain(line.clone()), FragWriter::new(vec![WriteAct::Interrupted], WriteAct::Accept(size)));
+                let mut odk = Odk::try_new(port, SharedBus(vbus.clone())).expect("odk setup");
+                st.borrow_mut().written.clear();
+                let r = catch(|| odk.process_message().map_err(|e| format!("{:?}", e).chars().take(60).collect::<String>()));
+                rep.case(Some(fnv(format!("sw{}{}", size, req.show()).as_bytes())));
+                rep.count("bridge_short_writes");
+                let reply = vbus.borrow().log.last().and_then(|e| e.reply.clone().ok()).flatten();
+                let full = reply.as_ref().map(refs::wire).unwrap_or_default();
+                if !matches!(&r, Ok(Ok(()))) || st.borrow().written != full || full.is_empty() {
+                    rep.violation(MON_B, "bridge_short_write_mishandled", &format!("{}|{}", req.show(), size), format!("port accepting {} byte(s) per write: result {:?}, [{}] reached the wire, the reply is [{}]", size, r.as_ref().map_err(|p| p.msg.clone()), show_bytes(&st.borrow().written), show_bytes(&full)), J::Null);
                 }
             }
         }
@@ -547,6 +623,7 @@ pub fn run(ctx: &Ctx) -> Outcome {
         floor("operations failing on both paths (illegal orders compared)", report.get("ops_failed_on_both_paths") > 0, report.get("ops_failed_on_both_paths")),
         floor("full legal tours (configure, send, show, load-next, re-send, shut-down all succeeding)", report.get("legal_tours") > 20 && report.get("tour_ops_succeeded") > 100, report.get("tour_ops_succeeded")),
         floor("reconfiguration as another type", report.get("reconfigured_as_another_type") > 0, report.get("reconfigured_as_another_type")),
+        floor("bursts of two and three lines waiting at the bridge; a bridge created with traffic waiting", report.get("bursts_of_lines_waiting_at_the_bridge") == 363 && report.get("bridges_created_with_traffic_waiting") == 1, report.get("bursts_of_lines_waiting_at_the_bridge")),
         floor("raw lines injected at the bridge", report.get("raw_lines_injected") > 300, report.get("raw_lines_injected")),
         floor("undecodable lines at the bridge", report.get("bridge_undecodable_lines") > 100, report.get("bridge_undecodable_lines")),
         floor("I/O faults at the bridge's own port (read fault at every byte, write fault at every call)", report.get("bridge_read_faults") > 100 && report.get("bridge_write_faults") > 50, report.get("bridge_write_faults")),
